@@ -310,15 +310,22 @@ def accumulator_step(c):
     c.canary("sample-variance", c.eq(sd * sd * n, (S2 + x * x) - (S1 + x) * (S1 + x) / (n + 1)))
 
 
-@contract("C18", "accumulator_order", ["holopy.core.io.io:Accumulator.push"], bounded="3 pushed images of shape (2,2), all 6 orders")
+@contract("C18", "accumulator_order", ["holopy.core.io.io:Accumulator.push", "holopy.core.io.io:Accumulator.mean", "holopy.core.io.io:Accumulator.std"],
+          bounded="3 pushed images of shape (2,2), all 6 orders, with and without reading mean/std between the pushes")
 def accumulator_order(c):
     """mean and std of three pushed images equal the batch values, in every push order, and keep the image metadata"""
     ims = [_img(c, (2, 2), pfx) for pfx in "abc"]
     order = c.choice("order", [(0, 1, 2), (0, 2, 1), (1, 0, 2), (1, 2, 0), (2, 0, 1), (2, 1, 0)])
+    read_between = c.choice("mean_and_std_read_between_pushes", [False, True])
     acc = c.call(Accumulator)
     for k in order:
         c.call(acc.push, ims[k])
+        if read_between:          # reading the running values is an observation: it must not disturb the accumulation
+            c.call(acc.mean)
+            c.call(acc.std)
     mean, std = c.call(acc.mean), c.call(acc.std)
+    mean2, std2 = c.call(acc.mean), c.call(acc.std)
+    c.ensures("reading-twice-gives-the-same", c.and_(c.eq(mean2.values, mean.values), c.eq(std2.values, std.values)))
     for idx in np.ndindex(1, 2, 2):
         xs = [im.values[idx] for im in ims]
         m = sum(xs) / 3
@@ -392,3 +399,30 @@ def integer_images(c):
     dead = bg.copy()
     dead[1, 2] = 0
     c.ensures("zero-filter", close(ip.zero_filter(mk(dead, dtype)), ip.zero_filter(mk(dead, float))))
+
+
+@contract("C18", "center_find_native", ["holopy.core.process.centerfinder:center_find", "holopy.core.process.centerfinder:hough",
+                                        "holopy.core.process.centerfinder:image_gradient"], native_only=True,
+          bounded="native sampling: Mie-plus-lens holograms of one sphere on square, tall and wide detectors of 60-160 pixels, centre in the "
+                  "central 60 %, radius / index / depth sampled")
+def center_find_native(c):
+    """the centre finder locates the centre of a computed single-sphere hologram to within one pixel - on square, tall and wide
+    detectors alike"""
+    from holopy.scattering import Sphere, calc_holo
+    from holopy.scattering.theory import MieLens
+    from holopy.core.metadata import detector_grid
+    from holopy.core.process import center_find
+    shape = c.choice("detector_shape", [(100, 100), (140, 80), (80, 140), (160, 100), (64, 120)])
+    fx, fy = c.real("centre_fraction_x", sample=(0.2, 0.8)), c.real("centre_fraction_y", sample=(0.2, 0.8))
+    r, n, z = c.real("radius", sample=(0.4, 0.7)), c.real("index", sample=(1.45, 1.65)), c.real("depth", sample=(8, 14))
+    spacing = 0.1
+    centre_px = (fx * (shape[0] - 1), fy * (shape[1] - 1))
+    det = detector_grid(shape=shape, spacing=spacing)
+    sph = Sphere(n=n, r=r, center=(centre_px[0] * spacing, centre_px[1] * spacing, z))
+    holo = calc_holo(det, sph, medium_index=1.33, illum_wavelen=0.66, illum_polarization=(1, 0), theory=MieLens(lens_angle=0.8))
+    o = c.outcome(center_find, holo)
+    c.ensures("no-unexpected-exception", o.ok, detail=repr(o.exc))
+    if o.ok:
+        err = float(np.abs(np.asarray(o.value, dtype=float) - np.asarray(centre_px)).max())
+        c.ensures("centre-within-one-pixel", err <= 1.0, detail="shape %s true centre (%.2f, %.2f) found %s: error %.2f px"
+                  % (shape, centre_px[0], centre_px[1], tuple(np.round(np.asarray(o.value, dtype=float), 2)), err))
